@@ -272,7 +272,13 @@ fn grow_block(h: &mut Hist, parent: &Hash, difficulty: u64) -> Block {
 }
 
 fn run_scenario(run: &Run, scenario: usize, h: &mut Hist, sc: &Scratch, n_trunk: usize) {
-	let names = ["old_chunk_and_boundary_spends", "reorg_across_chunk_boundary", "tampered_output_root", "random_mix"];
+	let names = [
+		"old_chunk_and_boundary_spends",
+		"reorg_across_chunk_boundary",
+		"tampered_output_root",
+		"random_mix",
+		"multi_block_rewind_newer_block_spends_older_chunk",
+	];
 	let name = names[scenario % names.len()];
 	let mut cx = Ctx {
 		run,
@@ -475,6 +481,58 @@ fn run_scenario(run: &Run, scenario: usize, h: &mut Hist, sc: &Scratch, n_trunk:
 				}
 			}
 		}
+		"multi_block_rewind_newer_block_spends_older_chunk" => {
+			// M1..Mk on the tip where only the NEWEST block spends outputs of the OLDEST chunk (the older
+			// ones touch the last chunk only), then a heavier fork from the tip rewinds all of them at once;
+			// repeated with different k and with the fork first delivered as a losing block
+			let mut cur = tip;
+			for round in 0..3 {
+				if !ok {
+					break;
+				}
+				let k = 2 + round % 2;
+				let base = cur;
+				let base_td = h.ledger.get(&base).total_difficulty;
+				let mut m = base;
+				for j in 0..k {
+					let coins: Vec<Coin> = if j + 1 == k {
+						let mut c: Vec<Coin> = coins_in_range(h, &m, 0, 1024).into_iter().map(|x| x.1).collect();
+						prng.shuffle(&mut c);
+						c.truncate(1 + prng.usize_below(3));
+						c
+					} else {
+						vec![]
+					};
+					let b = spend_block(h, &m, &coins, 10);
+					ok &= deliver_ok(&mut cx, &mut node, h, &b, "branch_to_be_rewound");
+					m = b.hash();
+					if !ok {
+						break;
+					}
+				}
+				if !ok {
+					break;
+				}
+				let m_td = h.ledger.get(&m).total_difficulty;
+				// honest fork block on the base: first a losing one (validated against a rewound extension,
+				// must be accepted as a fork), then a winning one (real reorg)
+				let f_lose = spend_block(h, &base, &[], 1);
+				ok &= deliver_ok(&mut cx, &mut node, h, &f_lose, "losing_fork_block_after_multi_block_rewind");
+				if !ok {
+					break;
+				}
+				let f_win = spend_block(h, &base, &[], m_td - base_td + 9);
+				ok &= deliver_ok(&mut cx, &mut node, h, &f_win, "winning_fork_block_after_multi_block_rewind");
+				run.count("multi_block_rewinds_with_newer_block_spending_older_chunk", 1);
+				if ok {
+					ok &= full_check(&mut cx, &mut node, h, "after_multi_block_rewind");
+				}
+				if ok && round == 1 {
+					ok &= reopen(&mut cx, &mut node, h, "after_multi_block_rewind");
+				}
+				cur = f_win.hash();
+			}
+		}
 		_ => {
 			// random mix: spends anywhere, small forks near the tip, reopen at random points
 			let mut cur = tip;
@@ -542,7 +600,7 @@ fn main() {
 	let san = run.args.iter().any(|a| a == "--san");
 	// 1 + 4 + 10*(n-4) outputs: 107 blocks -> 1035 outputs (2 chunks); 335 -> 3315 (4 chunks)
 	let n_blocks: u64 = if san { 30 } else { run.tier.pick(107, 335) };
-	let n_scen: usize = run.tier.pick(4, 8);
+	let n_scen: usize = run.tier.pick(5, 10);
 	if let Some((shard, n)) = run.worker_shard() {
 		init_thread(true);
 		let dir = run.arg_value("--dir").expect("--dir");
@@ -567,7 +625,8 @@ fn main() {
 		 1020-1027, spends concentrated in the oldest chunk, spends in the last partial chunk, reopen; (2) a reorg to a fork from below \
 		 the 1024-output boundary (rewind shrinks the output set across a chunk boundary), growth across the boundary on the fork, reorg \
 		 back; (3) blocks identical to an honest one except that output_root commits to another bitmap (spent marked unspent, unspent \
-		 marked spent, parent-state bitmap, extra chunk) must be refused; (4) random mix of spends, growth, winning forks and reopen. \
+		 marked spent, parent-state bitmap, extra chunk) must be refused; (4) random mix of spends, growth, winning forks and reopen; (5) branches of 2-3 blocks where only the newest block spends \
+		 outputs of the oldest chunk, rewound at once by a losing and then a winning fork block. \
 		 After EVERY accepted block: node bitmap root == commitment computed from scratch over the replayed unspent set; at \
 		 checkpoints the full reference comparison; restart must not change the root. One evaluation per compared state (distinct by scenario, step kind, output-count band, occupancy band of the first chunk; non-trivial = state with >= 2 chunks) and per forged variant.",
 	);
@@ -587,6 +646,11 @@ fn main() {
 		run.require("bitmap_root_comparisons", run.counter("bitmap_root_comparisons"), run.tier.pick(400, 2500));
 		run.require("max_chunks_in_a_checked_state", run.counter("max_chunks_in_a_checked_state").min(4), run.tier.pick(2, 4));
 		run.require("reorgs_shrinking_across_boundary", run.counter("reorgs_shrinking_across_boundary"), 1);
+		run.require(
+			"multi_block_rewinds_with_newer_block_spending_older_chunk",
+			run.counter("multi_block_rewinds_with_newer_block_spending_older_chunk"),
+			2,
+		);
 		run.require("boundary_index_spends", run.counter("boundary_index_spends"), 2);
 		run.require("old_chunk_spends", run.counter("old_chunk_spends"), 8);
 		run.require("reopen_comparisons", run.counter("reopen_comparisons"), 3);
